@@ -1,5 +1,5 @@
 """C01 Lazy chained execution equals step-by-step evaluation — structural clauses (DESIGN §5 C01)."""
-from rules import framework
+from rules import framework, stream
 
 
 def check(ctx):
@@ -9,6 +9,9 @@ def check(ctx):
     framework.r3_entrypoints(ctx)
     framework.r4_pairing(ctx)
     framework.r5_pkg_protocol(ctx)
+    # a step that skips an upstream resource without reading it starves the side effects of earlier steps (duplicate's
+    # store, join's index): the lazy chain then differs from step-by-step evaluation
+    stream.r6_consumption(ctx)
     run.trusted += ['LF1 datapackage.Resource owns a private descriptor; Package.commit() snapshots',
                     'inspect.isfunction / inspect.signature / collections.abc.Iterable behave as documented']
     run.not_decided += ['behavioural equality of lazy and materialised evaluation over all step sequences and inputs '
